@@ -138,6 +138,19 @@ def build_cases(rep, tier, rng):
         ub = onp.array([v + rng.choice([0.0, 0.02, 0.2, 0.5]) if rng.random() < 0.6 else onp.inf for v in x0])
         cases.append(dict(mode="genuine", prob=prob, x0=x0, lb=lb.tolist(), ub=ub.tolist(), script=None,
                           settings=dict(spg_use_nonmonotone=False, tr_size=rng.choice([0.05, 0.05, 0.05, 0.3, 2.0, 50.0]), max_trust_iters=30)))
+    # vertex starts in low dimension: every component of the start sits on one of its bounds, the objective is not
+    # quadratic and the radius is large, so the first steps leave a bound and overshoot (the new gradient points back at it)
+    for i in range(160 if tier == "quick" else 1600):
+        n = [1, 2, 2, 3][i % 4]
+        prob = trsolve.random_problem(rng, n, ["wiggly", "indef", "wiggly", "scaled_up"][(i // 4) % 4])
+        x0 = [rng.uniform(-2, 2) for _ in range(n)]
+        side = [rng.random() < 0.5 for _ in range(n)]
+        w = [rng.choice([0.05, 0.3, 1.0, 3.0]) for _ in range(n)]
+        lb = onp.array([v if sd else v - wi for v, sd, wi in zip(x0, side, w)])
+        ub = onp.array([v + wi if sd else v for v, sd, wi in zip(x0, side, w)])
+        cases.append(dict(mode="genuine", prob=prob, x0=x0, lb=lb.tolist(), ub=ub.tolist(), script=None,
+                          settings=dict(tr_size=rng.choice([0.3, 2.0, 50.0]), max_trust_iters=40,
+                                        spg_use_nonmonotone=bool(i % 2))))
     for i in range(24 if tier == "quick" else 400):
         n = [2, 3, 4][i % 3]
         prob = trsolve.random_problem(rng, n, "convex")
